@@ -12,6 +12,7 @@ pub fn dispatch(f: &[String]) -> String
         "lit" => op_lit(f),
         "fmt" => op_fmt(f),
         "ovl" => op_ovl(f),
+        "lc" => op_lc(f),
         "ofmt" => op_ofmt(f),
         _ => format!("{{\"unknown_op\":{}}}", json::string(&f[0])),
     }
@@ -189,7 +190,10 @@ pub fn op_asm(f: &[String]) -> String
         }
     }
     s.push_str(&format!("\"symbols\":[{}],", syms.join(",")));
-    s.push_str(&format!("\"messages\":[{}]", msgs.join(",")));
+    s.push_str(&format!("\"messages\":[{}],", msgs.join(",")));
+    let mut printed = Vec::<u8>::new();
+    report.print_all(&mut printed, &fileserver, false);
+    s.push_str(&format!("\"printed\":{}", json::string(&String::from_utf8_lossy(&printed))));
     s.push('}');
     s
 }
@@ -420,4 +424,19 @@ fn op_ovl(f: &[String]) -> String
         }
     }
     format!("{{\"steps\":\"{}\"}}", out)
+}
+
+
+/// lc <text_hex> <byte index> <line> : CharCounter line/column at index, byte range of line
+fn op_lc(f: &[String]) -> String
+{
+    let text = json::unhex_str(&f[1]);
+    let index: usize = f[2].parse().unwrap();
+    let line: usize = f[3].parse().unwrap();
+    let counter = util::CharCounter::new(&text);
+    let (l, c) = counter.get_line_column_at_index(index);
+    let (a, b) = counter.get_index_range_of_line(line);
+    let ex = std::panic::catch_unwind(std::panic::AssertUnwindSafe(|| counter.get_excerpt(a, b).to_string()));
+    let exs = match ex { Ok(s) => if s.is_empty() { "-".to_string() } else { json::hex(s.as_bytes()) }, Err(_) => "panic".to_string() };
+    format!("{{\"lc\":\"{} {} {} {} {} {}\"}}", l, c, a, b, counter.get_line_count(), exs)
 }
